@@ -207,8 +207,11 @@ def compile_client(hist, fbuf):
 
     def content(s, tag):
         m = insts[s]
-        for b in m.bindings():
-            emit(["transcript", b, "s%d" % s, "SLTC"], ("content", s, b, tag))
+        # GetSelectedOutputValue clears the error reporter (documented side effect of the accessor), so the
+        # strings are read through every binding first and the tables in a second round
+        for flags in ("SLC", "T"):
+            for b in m.bindings():
+                emit(["transcript", b, "s%d" % s, flags], ("content", s, b, tag + ":" + flags))
 
     for hi, op in enumerate(hist):
         k = op["op"]
